@@ -362,10 +362,10 @@ func runHelpText(c *Ctx) {
 			}
 		}
 	}
-	descs := []string{"", "one line", "first line\nsecond line\n  third line  "}
-	envs := []string{"", "VQ_H1", "VQ_H1 VQ_H2"}
+	descs := []string{"", "one line, 100% %s %d", "first line\nsecond line\n  third line  "}
+	envs := []string{"", "VQ_H1", "VQ_H1 VQ_H2", "VQ_H1  VQ_H2\tVQ_H3 "}
 	optNames := []string{"f", "force", "f force", "force f", "f g", "force fast"}
-	base := hDecl{Desc: "the command", Long: "the long\ndescription"}
+	base := hDecl{Desc: "the command (50% %s done)", Long: "the long\ndescription at 100%d %v"}
 	// (1) every single-item declaration over the full variant product
 	for _, names := range optNames {
 		for _, env := range envs {
@@ -399,7 +399,7 @@ func runHelpText(c *Ctx) {
 		for _, hid := range []bool{false, true} {
 			for _, desc := range descs[:2] {
 				for _, long := range []string{"", "long description of the sub-command"} {
-					for _, appLong := range []string{"", "the long\ndescription"} {
+					for _, appLong := range []string{"", "the long\ndescription, 7% %s"} {
 						for _, spec := range []string{"", "[-f]"} {
 							d := base
 							d.Long = appLong
@@ -420,7 +420,7 @@ func runHelpText(c *Ctx) {
 		{Names: "SRC", Typ: 1, Desc: "source"},
 		{Names: "DST", Typ: 4, NZ: true, Env: "VQ_H1", Desc: "destination\nsecond line"},
 		{Names: "N", Typ: 2, NZ: true, Hide: true, Desc: "count"},
-		{Names: "RATE", Typ: 3, Env: "VQ_H1 VQ_H2"},
+		{Names: "RATE", Typ: 3, Env: "VQ_H1  VQ_H2"},
 		{Names: "FLAG", Typ: 0, NZ: true, Desc: "a bool"},
 		{Names: "IDS", Typ: 5, NZ: true, Desc: "ids"},
 	}
@@ -434,7 +434,7 @@ func runHelpText(c *Ctx) {
 	}
 	cmdVars := []hItem{
 		{Names: "run", Desc: "run it"},
-		{Names: "list ls", Desc: "list things", Long: "long list"},
+		{Names: "list ls", Desc: "list 10% of the things %s", Long: "long list"},
 		{Names: "hid1 hid2", Hide: true, Desc: "must not appear"},
 		{Names: "a b c", Desc: ""},
 		{Names: "zap", Hide: true},
@@ -526,7 +526,13 @@ func helpTextCase(c *Ctx, d *hDecl) {
 	for _, cm := range d.Cmds {
 		if cm.Hide {
 			for _, al := range strings.Fields(cm.Names) {
-				if strings.Contains(o.Stderr, al) {
+				appears := false
+				for _, w := range strings.FieldsFunc(o.Stderr, func(r rune) bool { return !(r == '_' || r >= '0' && r <= '9' || r >= 'a' && r <= 'z' || r >= 'A' && r <= 'Z') }) {
+					if w == al {
+						appears = true
+					}
+				}
+				if appears {
 					c.Violation("C17", key+" (hidden)", cs(), "hidden command "+al+" never appears", o.Stderr)
 				}
 			}
